@@ -7,7 +7,7 @@ From Coq Require Import List NArith Bool.
 Import ListNotations.
 Require Import ZV.Skel ZV.gen.Skeleton.
 Open Scope N_scope.
-Ltac tvm := timeout 60 (vm_compute; repeat split; reflexivity).
+Ltac tvm := timeout 240 (vm_compute; repeat split; reflexivity).
 
 (* every call (Some f) and return (None) of a skeleton, in syntactic order *)
 Fixpoint flat (s : sk) : list (option N) :=
